@@ -96,7 +96,7 @@ func (f *frame) call(x *ssa.Call, cc *ssa.CallCommon, pc *Term, st State) {
 		}
 		for i, n := range f.spec.Params {
 			if i < len(f.params) {
-				env.vars[n] = f.params[i]
+				env.setParam(n, f.params[i])
 			}
 		}
 		if rv, ok := f.vals[x]; ok {
